@@ -26,8 +26,8 @@ ASSUMPTIONS = [
     'attempt frequency entering the activation energies is read from the real TrajectoryMetrics',
     'K2 (Transitions.matrix folds no-site events into the last row/column) is tolerated only when every deviating cell is explained by exactly that index wrap',
 ]
-N_CASES = {'quick': 320, 'thorough': 10000}
-BUDGET_S = {'quick': 220, 'thorough': 2400}
+N_CASES = {'quick': 320, 'thorough': 50000}
+BUDGET_S = {'quick': 220, 'thorough': 3600}
 K2 = 'K2-transitions-matrix-folds-nosite'
 ANG = 1e-10
 KB = 1.380649e-23
